@@ -12,7 +12,7 @@ from ..world import World, inventory, contents_of, inv_brief
 
 ID = "C18"
 LEVEL = "exploration"
-BUDGET = {"quick": {"n": 450, "wall_s": 420}, "thorough": {"n": 20000, "wall_s": 3300}}
+BUDGET = {"quick": {"n": 1500, "wall_s": 420}, "thorough": {"n": 20000, "wall_s": 3300}}
 RULE = ("per case: world of 1..4 duplicate families; target DIR in {outside the scanned tree, inside it, relative to cwd, written through `<link to a directory>/..`, "
         "on a second simulated device (copy path)}; 0..3 pre-existing entries placed exactly at mapped locations (file, "
         "directory, symlink to a file, dangling symlink, parent path component being a file); fault plan drawn from {none, "
